@@ -409,8 +409,8 @@ fn update_save_stack<S, T: Clone + SupportedType, F>(
     match scope {
         groupingmap::Scope::Global => {
             let n = input.groups().len();
-            for _ in 0..n {
-                let group = &mut input.groups()[0];
+            for i in 0..n {
+                let group = &mut input.groups()[i];
                 if let Some(stale_value) = map_getter(group).remove(variable) {
                     SupportedType::recycle(input, stale_value);
                 }
